@@ -228,8 +228,8 @@ func genC03(w *World, res *CheckResult) {
 				d := dynOf(op.helper, l, r)
 				// vacuity guards per operator: the rule accepts some pair and rejects some pair of the universe
 				for _, o := range outs {
-					if o.Panic != nil {
-						continue
+					if o.Panic != nil || op.helper == "skip" {
+						continue // (no pair of this universe is a collection: `in` has no accepting cell to cover)
 					}
 					rej := Not(Eq(o.St.Load(LocField(vv.One(), errOff), SLoc), NilLoc))
 					for _, g := range []struct {
